@@ -635,6 +635,150 @@ theorem loop_delay_respected (env : Env) (l : Limits) (now : Int) (r : Rec) (scr
   rw [← loop_is_run]
   exact delay_respected_partial env l _ now r
 
+/-- "is retried" as progress of the self-driven loops: the loop gives up only on a FINISHED record.
+    Every attempt that is followed by another one, or that still has script left, … — precisely: the
+    loop makes one attempt per script element until the record is finished; if it made fewer attempts
+    than there are elements, its last attempt finished the record (or it was finished from the start).
+    A retry outcome is never the end of the series while the function has something left to do. -/
+theorem loop_stops_only_when_finished (env : Env) (l : Limits) (script : List (Raised × Nat)) :
+    ∀ (now : Int) (r : Rec), (loopRun env l now r script).length < script.length →
+      r.finished = true ∨ ∃ a, (loopRun env l now r script).getLast? = some a ∧ a.recAfter.finished = true := by
+  induction script with
+  | nil => intro now r h; simp [loopRun] at h
+  | cons s rest ih =>
+    intro now r h
+    obtain ⟨x, dur⟩ := s
+    cases hf : r.finished with
+    | true => left; rfl
+    | false =>
+      right
+      simp only [loopRun, hf, Bool.false_eq_true, if_false, List.length_cons] at h ⊢
+      have h' : (loopRun env l (attemptAt env l (wakeTime r now) r x dur 0).merged
+          (attemptAt env l (wakeTime r now) r x dur 0).recAfter rest).length < rest.length := by omega
+      rcases ih _ _ h' with hfin | ⟨a, ha, hafin⟩
+      · refine ⟨attemptAt env l (wakeTime r now) r x dur 0, ?_, hfin⟩
+        rw [loopRun_finished _ _ _ _ _ hfin]; rfl
+      · refine ⟨a, ?_, hafin⟩
+        rw [List.getLast?_cons, ha]; rfl
+
+/-- … and an unfinished record with script left IS attempted next, exactly when its sleep ends. -/
+theorem loop_retries_when_due (env : Env) (l : Limits) (now : Int) (r : Rec) (x : Raised) (dur : Nat)
+    (rest : List (Raised × Nat)) (hf : r.finished = false) :
+    (loopRun env l now r ((x, dur) :: rest)).head? = some (attemptAt env l (wakeTime r now) r x dur 0) := by
+  simp [loopRun, hf]
+
+example : (loopRun ⟨.temporary, 60⟩ ⟨none, none, none, none⟩ 0 (fromScratch 0)
+    [(.temporary (some 0), 0), (.temporary none, 0), (.ok, 0), (.ok, 0)]).map
+      (fun a => (a.time, a.retry, a.recAfter.finished)) = [(0, 0, false), (0, 1, false), (0, 2, true)] := by decide
+
+/-! ## Records with TZ-naive timestamps (finding C11-F5)
+
+  Full statement (property: "… is retried … for change handlers also across operator restarts"): a
+  cycle on a stored record of an unfinished handler whose delay has passed executes it (`stepStored = att`).
+  True for every record this kopf has written itself (`stored_aware_is_step`); FALSE for a record whose
+  timestamps carry no UTC offset (written by a release before the TZ-aware clock, or by hand): -/
+
+/-- Records spelled the way kopf spells them behave as everything above says: the gate, then the attempt. -/
+theorem stored_aware_is_step (env : Env) (l : Limits) (r : Rec) (now : Int) (x : Raised) (dur : Nat) :
+    stepStored env l ⟨false, false⟩ r now x dur =
+      if r.awakened now then .att (attemptAt env l now r x dur 0) else .idle r.finished := by
+  cases hf : r.finished <;> cases hs : r.sleeping now <;> simp [stepStored, Rec.awakened, hf, hs]
+
+/-- NEGATION (finding C11-F5): an unfinished handler that is due and within its limits (one attempt
+    made, retry asked for at 100, `retries = 5`, now 200) — on a record with a TZ-naive `delayed` the
+    cycle raises instead of executing it, -/
+theorem naive_record_never_retried_witness :
+    ∃ (env : Env) (l : Limits) (r : Rec) (now : Int),
+      r.awakened now = true ∧ precheck l r now = none ∧
+      stepStored env l ⟨false, true⟩ r now .ok 0 = .raised ∧
+      stepStored env l ⟨false, false⟩ r now .ok 0 = .att (attemptAt env l now r .ok 0 0) :=
+  ⟨⟨.temporary, 60⟩, ⟨none, none, some 5, none⟩, ⟨0, none, some 100, 1, false, false⟩, 200, by decide, by decide, by decide, by decide⟩
+
+/-- … and since a failed cycle stores nothing, it raises in EVERY later cycle, whatever the time: the
+    handler is never executed again (until somebody removes the record by hand). -/
+theorem naive_delayed_raises_forever (env : Env) (l : Limits) (r : Rec) (d : Int) (hf : r.finished = false)
+    (hd : r.delayed = some d) (sn : Bool) (now : Int) (x : Raised) (dur : Nat) :
+    stepStored env l ⟨sn, true⟩ r now x dur = .raised := by
+  simp [stepStored, hf, hd]
+
+/-- A TZ-naive `started` alone (no `delayed`: the first attempt asked for an immediate retry, or the
+    record was created by a cycle that skipped the handler) is fatal as well, unless the handler is
+    refused by `retries` without a timeout being set. -/
+theorem naive_started_raises (env : Env) (l : Limits) (r : Rec) (hf : r.finished = false) (hd : r.delayed = none)
+    (h : l.timeout.isSome = true ∨ retriesOut l r.retries = false) (now : Int) (x : Raised) (dur : Nat) :
+    stepStored env l ⟨true, false⟩ r now x dur = .raised := by
+  have hs : r.sleeping now = false := by simp [Rec.sleeping, hd]
+  rcases h with h | h <;> simp [stepStored, hf, hs, h]
+
+/-! ## `initial_delay=` of daemons and timers: the series' clock starts after it -/
+
+/-- A spawned daemon (and the first series of a spawned timer: `timerRun` from `spawnedAt t0 d`) makes
+    its first attempt `initial_delay` after the spawn, on a record created at that moment
+    (`started = time`): the initial delay is not part of the `timeout`, and the first attempt IS an
+    invocation as soon as `0 < T` and `0 < N`, whatever the delay. -/
+theorem initial_delay_not_counted (env : Env) (l : Limits) (t0 : Int) (d : Nat) (x : Raised) (dur : Nat)
+    (rest : List (Raised × Nat)) :
+    ∃ a, (daemonRun env l t0 d ((x, dur) :: rest)).head? = some a ∧ a.time = t0 + d ∧ a.retry = 0 ∧
+      a.recAfter.started = a.time ∧
+      (a.out.invoked = true ↔ (∀ T, l.timeout = some T → 0 < T) ∧ (∀ N, l.retries = some N → 0 < N)) := by
+  refine ⟨attemptAt env l (spawnedAt t0 d) (fromScratch (spawnedAt t0 d)) x dur 0, ?_, rfl, rfl, rfl, ?_⟩
+  · simp [daemonRun, loopRun, fromScratch, Rec.finished, wakeTime]
+  · have key := fresh_invoked_iff env l (spawnedAt t0 d) 0 dur x
+    simp only [Int.natCast_zero, Int.add_zero, attemptAt_out] at key ⊢
+    rw [key]
+
+-- initial_delay 100 with timeout 10: invoked at 100 (the delay does not eat the timeout), refused at 110
+example : (daemonRun ⟨.temporary, 60⟩ ⟨none, some 10, none, some 5⟩ 0 100 [(.arbitrary, 0), (.arbitrary, 0), (.ok, 0)]).map
+    (fun a => (a.time, a.out.invoked, a.recAfter.started)) = [(100, true, 100), (105, true, 100)] := by decide
+
+/-! ## A daemon across re-spawns -/
+
+/-- Within one task a finished attempt is the last one (the loop ends on `state.done`). -/
+theorem loop_finished_is_last (env : Env) (l : Limits) (script : List (Raised × Nat)) :
+    ∀ (now : Int) (r : Rec), (loopRun env l now r script).Pairwise (fun a _ => a.recAfter.finished = false) := by
+  induction script with
+  | nil => intro now r; exact List.Pairwise.nil
+  | cons s rest ih =>
+    intro now r
+    obtain ⟨x, dur⟩ := s
+    cases hf : r.finished with
+    | true => simp [loopRun, hf]
+    | false =>
+      simp only [loopRun, hf, Bool.false_eq_true, if_false]
+      refine List.Pairwise.cons ?_ (ih _ _)
+      intro b hb
+      cases hfa : (attemptAt env l (wakeTime r now) r x dur 0).recAfter.finished with
+      | false => rfl
+      | true => rw [loopRun_finished _ _ _ _ _ hfa] at hb; cases hb
+
+/-- "a permanent error … ends it without retry", "recorded as failed for good" — for a daemon over its
+    whole existence for the object, every task and every re-spawn: after a final outcome (the function
+    returned, or failed for good) the function is never invoked again. -/
+theorem daemon_respawn_final_is_last (env : Env) (l : Limits) (tasks : List (Int × List (Raised × Nat))) :
+    (daemonRespawnRun env l tasks).Pairwise (fun a _ => a.recAfter.finished = false) := by
+  induction tasks with
+  | nil => exact List.Pairwise.nil
+  | cons tk rest ih =>
+    obtain ⟨t0, script⟩ := tk
+    simp only [daemonRespawnRun]
+    have h1 := loop_finished_is_last env l script (spawnedAt t0 0) (fromScratch (spawnedAt t0 0))
+    cases hany : (daemonRun env l t0 0 script).any (fun a => a.recAfter.finished) with
+    | true => simpa [daemonRun] using h1
+    | false =>
+      simp only [Bool.false_eq_true, if_false]
+      refine List.pairwise_append.2 ⟨by simpa [daemonRun] using h1, ih, ?_⟩
+      intro a ha b _
+      have := List.any_eq_false.1 hany a ha
+      simpa using this
+
+-- PermanentError in the first task: the daemon is not spawned again when the object matches again at 6;
+-- a task stopped in the middle of its retries is
+example : (daemonRespawnRun ⟨.temporary, 60⟩ ⟨none, none, none, none⟩
+    [(0, [(.permanent, 0)]), (6, [(.ok, 0)])]).map (fun a => (a.time, a.retry, a.recAfter.failure)) = [(0, 0, true)] := by decide
+example : (daemonRespawnRun ⟨.temporary, 60⟩ ⟨none, none, none, some 5⟩
+    [(0, [(.arbitrary, 0)]), (6, [(.ok, 0)])]).map (fun a => (a.time, a.retry, a.recAfter.success)) =
+    [(0, 0, false), (6, 0, true)] := by decide
+
 /-! ## Timers: the whole life of one `_timer` task (after af4d77a, 9118944, a6c10de)
 
   `timerRun` has one script element per iteration of `_timer`'s loop and evaluates the same gate as
@@ -669,13 +813,13 @@ theorem attemptAt_sane (env : Env) (l : Limits) (t : Int) (r : Rec) (x : Raised)
 
 /-- A timer whose record is a failure for good never executes anything again: every further
     iteration of its loop finds nothing awakened. -/
-theorem timer_failed_never_runs (env : Env) (l : Limits) (iv : Nat) (sh : Bool) (iu : Int) (script : List (Raised × Nat)) :
-    ∀ (now : Int) (r : Rec), r.sane → r.failure = true → attempts (timerRun env l iv sh iu now r script) = [] := by
+theorem timer_failed_never_runs (env : Env) (l : Limits) (iv : Nat) (sh : Bool) (script : List (Raised × Nat × Int)) :
+    ∀ (now : Int) (r : Rec), r.sane → r.failure = true → attempts (timerRun env l iv sh now r script) = [] := by
   induction script with
   | nil => intro now r _ _; rfl
   | cons s rest ih =>
     intro now r hs h
-    obtain ⟨x, dur⟩ := s
+    obtain ⟨x, dur, iu⟩ := s
     have hst : timerState r now (timerAt now iu) = r := timerState_failure h (hs.2 (finished_of_failure h)) now _
     rcases timerRun_step env l iv sh iu now r x dur rest with ⟨hg, _⟩ | ⟨_, he⟩
     · rw [hst, not_awakened_of_finished (finished_of_failure h)] at hg; cases hg
@@ -683,14 +827,14 @@ theorem timer_failed_never_runs (env : Env) (l : Limits) (iv : Nat) (sh : Bool) 
 
 /-- After a final failure (PermanentError, permanent-mode error, retries or timeout exhausted) there is
     no further attempt in the task's life: an attempt that is followed by another one did not fail. -/
-theorem timer_failure_is_last (env : Env) (l : Limits) (iv : Nat) (sh : Bool) (iu : Int) (script : List (Raised × Nat)) :
+theorem timer_failure_is_last (env : Env) (l : Limits) (iv : Nat) (sh : Bool) (script : List (Raised × Nat × Int)) :
     ∀ (now : Int) (r : Rec), r.sane →
-      (attempts (timerRun env l iv sh iu now r script)).Pairwise (fun a _ => a.recAfter.failure = false) := by
+      (attempts (timerRun env l iv sh now r script)).Pairwise (fun a _ => a.recAfter.failure = false) := by
   induction script with
   | nil => intro now r _; exact List.Pairwise.nil
   | cons s rest ih =>
     intro now r hs
-    obtain ⟨x, dur⟩ := s
+    obtain ⟨x, dur, iu⟩ := s
     have hsa := attemptAt_sane env l (timerAt now iu) (timerState r now (timerAt now iu)) x dur 0
       (timerState_nonneg hs.1 now _)
     rcases timerRun_step env l iv sh iu now r x dur rest with ⟨_, he⟩ | ⟨hg, he⟩
@@ -699,20 +843,20 @@ theorem timer_failure_is_last (env : Env) (l : Limits) (iv : Nat) (sh : Bool) (i
       intro b hb
       cases hfa : (attemptAt env l (timerAt now iu) (timerState r now (timerAt now iu)) x dur 0).recAfter.failure with
       | false => rfl
-      | true => rw [timer_failed_never_runs _ _ _ _ _ _ _ _ hsa hfa] at hb; cases hb
+      | true => rw [timer_failed_never_runs _ _ _ _ _ _ _ hsa hfa] at hb; cases hb
     · rw [he, attempts_cons_idle, (timerState_idle hg).1]; exact ih _ _ hs
 
 /-- The head attempt of a timer's remaining life continues the running series (same retry number as
     the record) or, after a success, starts a new one with retry 0; after a failure there is none. -/
-theorem timer_head_retry (env : Env) (l : Limits) (iv : Nat) (sh : Bool) (iu : Int) (script : List (Raised × Nat)) :
+theorem timer_head_retry (env : Env) (l : Limits) (iv : Nat) (sh : Bool) (script : List (Raised × Nat × Int)) :
     ∀ (now : Int) (r : Rec) (b : Attempt), r.sane →
-      (attempts (timerRun env l iv sh iu now r script)).head? = some b →
+      (attempts (timerRun env l iv sh now r script)).head? = some b →
       (r.finished = false ∧ b.retry = r.retries) ∨ (r.finished = true ∧ r.failure = false ∧ b.retry = 0) := by
   induction script with
   | nil => intro now r b _ h; simp [timerRun, attempts] at h
   | cons s rest ih =>
     intro now r b hs h
-    obtain ⟨x, dur⟩ := s
+    obtain ⟨x, dur, iu⟩ := s
     rcases timerRun_step env l iv sh iu now r x dur rest with ⟨hg, he⟩ | ⟨hg, he⟩
     · rw [he, attempts_cons_att] at h
       simp only [List.head?_cons, Option.some.injEq] at h
@@ -728,15 +872,15 @@ theorem timer_head_retry (env : Env) (l : Limits) (iv : Nat) (sh : Bool) (iu : I
       exact ih _ _ b hs h
 
 /-- `retries = N`, per series: every invocation in a timer's life has a retry number below `N`… -/
-theorem timer_retry_lt (env : Env) (l : Limits) (N : Int) (hN : l.retries = some N) (iv : Nat) (sh : Bool) (iu : Int)
-    (script : List (Raised × Nat)) :
-    ∀ (now : Int) (r : Rec) (a : Attempt), a ∈ attempts (timerRun env l iv sh iu now r script) →
+theorem timer_retry_lt (env : Env) (l : Limits) (N : Int) (hN : l.retries = some N) (iv : Nat) (sh : Bool)
+    (script : List (Raised × Nat × Int)) :
+    ∀ (now : Int) (r : Rec) (a : Attempt), a ∈ attempts (timerRun env l iv sh now r script) →
       a.out.invoked = true → a.retry < N := by
   induction script with
   | nil => intro now r a h; cases h
   | cons s rest ih =>
     intro now r a h hi
-    obtain ⟨x, dur⟩ := s
+    obtain ⟨x, dur, iu⟩ := s
     rcases timerRun_step env l iv sh iu now r x dur rest with ⟨_, he⟩ | ⟨_, he⟩
     · rw [he, attempts_cons_att] at h
       rcases List.mem_cons.1 h with rfl | h'
@@ -749,16 +893,16 @@ theorem timer_retry_lt (env : Env) (l : Limits) (N : Int) (hN : l.retries = some
 /-- … and the retry numbers count up by one inside a series; a new series (retry 0 again) starts
     only right after a success. Hence at most `N` invocations per series, and with
     `timer_failure_is_last` a failed series is the last one. -/
-theorem timer_retry_steps (env : Env) (l : Limits) (iv : Nat) (sh : Bool) (iu : Int) (script : List (Raised × Nat)) :
+theorem timer_retry_steps (env : Env) (l : Limits) (iv : Nat) (sh : Bool) (script : List (Raised × Nat × Int)) :
     ∀ (now : Int) (r : Rec) (n : Nat) (a b : Attempt), r.sane →
-      (attempts (timerRun env l iv sh iu now r script))[n]? = some a →
-      (attempts (timerRun env l iv sh iu now r script))[n + 1]? = some b →
+      (attempts (timerRun env l iv sh now r script))[n]? = some a →
+      (attempts (timerRun env l iv sh now r script))[n + 1]? = some b →
       (b.retry = a.retry + 1 ∧ a.recAfter.finished = false) ∨ (b.retry = 0 ∧ a.recAfter.success = true) := by
   induction script with
   | nil => intro now r n a b _ ha; simp [timerRun, attempts] at ha
   | cons s rest ih =>
     intro now r n a b hs ha hb
-    obtain ⟨x, dur⟩ := s
+    obtain ⟨x, dur, iu⟩ := s
     have hsa := attemptAt_sane env l (timerAt now iu) (timerState r now (timerAt now iu)) x dur 0
       (timerState_nonneg hs.1 now _)
     rcases timerRun_step env l iv sh iu now r x dur rest with ⟨_, he⟩ | ⟨hg, he⟩
@@ -771,7 +915,7 @@ theorem timer_retry_steps (env : Env) (l : Limits) (iv : Nat) (sh : Bool) (iu : 
         rw [List.getElem?_cons_zero] at ha
         rw [List.getElem?_cons_succ, ← List.head?_eq_getElem?] at hb
         cases ha
-        rcases timer_head_retry env l iv sh iu rest _ _ b hsa hb with ⟨hf, hr⟩ | ⟨hf, hn, hr⟩
+        rcases timer_head_retry env l iv sh rest _ _ b hsa hb with ⟨hf, hr⟩ | ⟨hf, hn, hr⟩
         · left; exact ⟨by rw [hr]; rfl, hf⟩
         · right
           refine ⟨hr, ?_⟩
@@ -786,16 +930,16 @@ def budget (N : Int) (r : Rec) : Nat :=
   if r.failure then 0 else if r.success then N.toNat else (N - r.retries).toNat
 
 theorem timer_invocations_bound (env : Env) (l : Limits) (N : Int) (hN : l.retries = some N) (iv : Nat)
-    (sh : Bool) (iu : Int) (script : List (Raised × Nat)) :
+    (sh : Bool) (script : List (Raised × Nat × Int)) :
     ∀ (now : Int) (r : Rec), r.sane →
-      (invokedOf (attempts (timerRun env l iv sh iu now r script))).length ≤
-        budget N r + N.toNat * ((attempts (timerRun env l iv sh iu now r script)).filter
+      (invokedOf (attempts (timerRun env l iv sh now r script))).length ≤
+        budget N r + N.toNat * ((attempts (timerRun env l iv sh now r script)).filter
           (fun a => a.recAfter.success)).length := by
   induction script with
   | nil => intro now r _; simp [timerRun, attempts, invokedOf]
   | cons s rest ih =>
     intro now r hs
-    obtain ⟨x, dur⟩ := s
+    obtain ⟨x, dur, iu⟩ := s
     rcases timerRun_step env l iv sh iu now r x dur rest with ⟨hg, he⟩ | ⟨hg, he⟩
     · rw [he, attempts_cons_att]
       have hb0 : budget N r = (N - (timerState r now (timerAt now iu)).retries).toNat := by
@@ -851,7 +995,7 @@ theorem timer_invocations_bound (env : Env) (l : Limits) (N : Int) (hN : l.retri
           rw [← hA]; exact ((limits_refuse env l r0 (timerAt now iu) dur x _).2 hni).2.2.1
         have hsu : A.recAfter.success = false := by
           rw [← hA]; exact ((limits_refuse env l r0 (timerAt now iu) dur x _).2 hni).2.2.2
-        rw [timer_failed_never_runs _ _ _ _ _ _ _ _ hsa hfa] at ih' ⊢
+        rw [timer_failed_never_runs _ _ _ _ _ _ _ hsa hfa] at ih' ⊢
         simp [hsu]
     · rw [he, attempts_cons_idle, (timerState_idle hg).1]
       exact ih _ _ hs
@@ -861,46 +1005,52 @@ theorem timer_invocations_bound (env : Env) (l : Limits) (N : Int) (hN : l.retri
     time), the timer's attempts up to and including the first one that finishes the record are
     exactly `loopRun`'s (same times, retry numbers, outcomes, records) — so everything proved for
     `loopRun` holds for every series. -/
-theorem timer_series_is_loop (env : Env) (l : Limits) (iv : Nat) (sh : Bool) (iu : Int) (script : List (Raised × Nat)) :
-    ∀ (now : Int) (r : Rec), r.finished = false → 0 ≤ r.retries → iu ≤ wakeTime r now →
+theorem timer_series_is_loop (env : Env) (l : Limits) (iv : Nat) (sh : Bool) (script : List (Raised × Nat × Int)) :
+    ∀ (now : Int) (r : Rec), r.finished = false → 0 ≤ r.retries → (∀ e ∈ script, e.2.2 ≤ wakeTime r now) →
       (r.retries = 0 → r = fromScratch (wakeTime r now)) →
-      takeSeries (attempts (timerRun env l iv sh iu (wakeTime r now) r script)) = loopRun env l now r script := by
+      takeSeries (attempts (timerRun env l iv sh (wakeTime r now) r script)) = loopRun env l now r (plainScript script) := by
   induction script with
   | nil => intro now r _ _ _ _; rfl
   | cons s rest ih =>
     intro now r hf h0 hiu hfresh
-    obtain ⟨x, dur⟩ := s
-    have hta : timerAt (wakeTime r now) iu = wakeTime r now := timerAt_of_le hiu
+    obtain ⟨x, dur, iu⟩ := s
+    have hiu0 : iu ≤ wakeTime r now := hiu (x, dur, iu) (List.mem_cons_self ..)
+    have hta : timerAt (wakeTime r now) iu = wakeTime r now := timerAt_of_le hiu0
     have hr : timerState r (wakeTime r now) (wakeTime r now) = r := by
       by_cases hz : r.retries = 0
       · rw [timerState_fresh0 hf hz]; exact (hfresh hz).symm
       · exact timerState_keep hf hz _ _
     rcases timerRun_step env l iv sh iu (wakeTime r now) r x dur rest with ⟨_, he⟩ | ⟨hg, _⟩
     · rw [he, attempts_cons_att, hta, hr]
-      simp only [takeSeries, loopRun, hf, Bool.false_eq_true, if_false]
+      simp only [plainScript, List.map_cons, takeSeries, loopRun, hf, Bool.false_eq_true, if_false]
       cases hfa : (attemptAt env l (wakeTime r now) r x dur 0).recAfter.finished with
       | true => simp [loopRun_finished _ _ _ _ _ hfa]
       | false =>
         simp only [Bool.false_eq_true, if_false, timerNext, hfa]
-        rw [ih _ _ hfa (by rw [attemptAt_rec_retries]; omega) (by
-          have h1 := wakeTime_ge (attemptAt env l (wakeTime r now) r x dur 0).recAfter
-            (attemptAt env l (wakeTime r now) r x dur 0).merged
-          have h2 := attemptAt_merged_ge env l (wakeTime r now) r x dur 0
-          omega) (by intro hz; rw [attemptAt_rec_retries] at hz; omega)]
+        have h1 := wakeTime_ge (attemptAt env l (wakeTime r now) r x dur 0).recAfter
+          (attemptAt env l (wakeTime r now) r x dur 0).merged
+        have h2 := attemptAt_merged_ge env l (wakeTime r now) r x dur 0
+        have := ih (attemptAt env l (wakeTime r now) r x dur 0).merged
+          (attemptAt env l (wakeTime r now) r x dur 0).recAfter hfa (by rw [attemptAt_rec_retries]; omega) (by
+          intro e he'
+          have := hiu e (List.mem_cons_of_mem _ he')
+          omega) (by intro hz; rw [attemptAt_rec_retries] at hz; omega)
+        simp only [plainScript] at this
+        rw [this]
     · rw [hta, hr, awakened_wakeTime hf] at hg; cases hg
 
 /-- `timeout = T` over a timer's whole life: no invocation starts `T` or more after the start of its
     own series (`recAfter.started` is the series' `started`; since 9118944 that is the moment of the
     series' first execution, after the idle wait — see `timer_first_of_series_invoked`). -/
-theorem timer_timeout_bound (env : Env) (l : Limits) (T : Int) (hT : l.timeout = some T) (iv : Nat) (sh : Bool) (iu : Int)
-    (script : List (Raised × Nat)) :
-    ∀ (now : Int) (r : Rec) (a : Attempt), a ∈ attempts (timerRun env l iv sh iu now r script) →
+theorem timer_timeout_bound (env : Env) (l : Limits) (T : Int) (hT : l.timeout = some T) (iv : Nat) (sh : Bool)
+    (script : List (Raised × Nat × Int)) :
+    ∀ (now : Int) (r : Rec) (a : Attempt), a ∈ attempts (timerRun env l iv sh now r script) →
       a.out.invoked = true → a.time - a.recAfter.started < T := by
   induction script with
   | nil => intro now r a h; cases h
   | cons s rest ih =>
     intro now r a h hi
-    obtain ⟨x, dur⟩ := s
+    obtain ⟨x, dur, iu⟩ := s
     rcases timerRun_step env l iv sh iu now r x dur rest with ⟨_, he⟩ | ⟨_, he⟩
     · rw [he, attempts_cons_att] at h
       rcases List.mem_cons.1 h with rfl | h'
@@ -911,14 +1061,14 @@ theorem timer_timeout_bound (env : Env) (l : Limits) (T : Int) (hT : l.timeout =
       · exact ih _ _ a h' hi
     · rw [he, attempts_cons_idle] at h; exact ih _ _ a h hi
 
-theorem timerRun_lower (env : Env) (l : Limits) (iv : Nat) (sh : Bool) (iu : Int) (script : List (Raised × Nat)) :
-    ∀ (now : Int) (r : Rec) (b : Attempt), b ∈ attempts (timerRun env l iv sh iu now r script) →
+theorem timerRun_lower (env : Env) (l : Limits) (iv : Nat) (sh : Bool) (script : List (Raised × Nat × Int)) :
+    ∀ (now : Int) (r : Rec) (b : Attempt), b ∈ attempts (timerRun env l iv sh now r script) →
       now ≤ b.time ∧ (r.finished = false → r.retries ≠ 0 → ∀ D, r.delayed = some D → D ≤ b.time) := by
   induction script with
   | nil => intro now r b h; cases h
   | cons s rest ih =>
     intro now r b h
-    obtain ⟨x, dur⟩ := s
+    obtain ⟨x, dur, iu⟩ := s
     have h4 := timerAt_ge now iu
     rcases timerRun_step env l iv sh iu now r x dur rest with ⟨hg, he⟩ | ⟨hg, he⟩
     · rw [he, attempts_cons_att] at h
@@ -941,19 +1091,19 @@ theorem timerRun_lower (env : Env) (l : Limits) (iv : Nat) (sh : Bool) (iu : Int
 /-- "never sooner than the requested delay or backoff" over a timer's whole life: every later
     attempt — of the same or of a later series — starts no earlier than the merge of an earlier
     outcome plus the delay it asked for. -/
-theorem timer_delay_respected (env : Env) (l : Limits) (iv : Nat) (sh : Bool) (iu : Int) (script : List (Raised × Nat)) :
-    ∀ (now : Int) (r : Rec), 0 ≤ r.retries → (attempts (timerRun env l iv sh iu now r script)).Pairwise Spaced := by
+theorem timer_delay_respected (env : Env) (l : Limits) (iv : Nat) (sh : Bool) (script : List (Raised × Nat × Int)) :
+    ∀ (now : Int) (r : Rec), 0 ≤ r.retries → (attempts (timerRun env l iv sh now r script)).Pairwise Spaced := by
   induction script with
   | nil => intro now r _; exact List.Pairwise.nil
   | cons s rest ih =>
     intro now r h0
-    obtain ⟨x, dur⟩ := s
+    obtain ⟨x, dur, iu⟩ := s
     have h1' := timerState_nonneg h0 now (timerAt now iu)
     rcases timerRun_step env l iv sh iu now r x dur rest with ⟨_, he⟩ | ⟨hg, he⟩
     · rw [he, attempts_cons_att]
       refine List.Pairwise.cons ?_ (ih _ _ (by rw [attemptAt_rec_retries]; omega))
       intro b hb
-      obtain ⟨h1, h2⟩ := timerRun_lower env l iv sh iu rest _ _ b hb
+      obtain ⟨h1, h2⟩ := timerRun_lower env l iv sh rest _ _ b hb
       have h3 := timerNext_ge iv sh (attemptAt env l (timerAt now iu) (timerState r now (timerAt now iu)) x dur 0)
       refine ⟨by omega, fun d hd => ?_⟩
       have hnf : (attemptAt env l (timerAt now iu) (timerState r now (timerAt now iu)) x dur 0).recAfter.finished = false := by
@@ -966,10 +1116,10 @@ theorem timer_delay_respected (env : Env) (l : Limits) (iv : Nat) (sh : Bool) (i
     task, or the iteration after a success — IS an invocation, however long the idle wait was, as
     soon as `0 < T` and `0 < N`; its record is created at that moment (`started = time`). -/
 theorem timer_first_of_series_invoked (env : Env) (l : Limits) (iv : Nat) (sh : Bool) (iu now : Int)
-    (r : Rec) (x : Raised) (dur : Nat) (rest : List (Raised × Nat))
+    (r : Rec) (x : Raised) (dur : Nat) (rest : List (Raised × Nat × Int))
     (hr : r.finished = true ∧ r.failure = false ∨ r = fromScratch now)
     (hT : ∀ T, l.timeout = some T → 0 < T) (hN : ∀ N, l.retries = some N → 0 < N) :
-    ∃ a, (timerRun env l iv sh iu now r ((x, dur) :: rest)).head? = some (.att a) ∧ a.out.invoked = true ∧
+    ∃ a, (timerRun env l iv sh now r ((x, dur, iu) :: rest)).head? = some (.att a) ∧ a.out.invoked = true ∧
       a.retry = 0 ∧ a.time = timerAt now iu ∧ a.recAfter.started = a.time := by
   have hr0 : timerState r now (timerAt now iu) = fromScratch (timerAt now iu) := by
     rcases hr with ⟨hf, hn⟩ | rfl
@@ -985,26 +1135,26 @@ theorem timer_first_of_series_invoked (env : Env) (l : Limits) (iv : Nat) (sh : 
 
 -- regression of the repaired timer half of C11-F3 (was `timer_idle_timeout_never_invoked_witness`):
 -- `idle = 2`, `timeout = 1`, `interval = 1`: invoked at 2, 3, 4, each a fresh series started at its call
-example : ((attempts (timerRun ⟨.temporary, 60⟩ ⟨none, some 1, none, none⟩ 1 false 2 0 (fromScratch 0)
-    [(.ok, 0), (.ok, 0), (.ok, 0)])).map (fun a => (a.time, a.out.invoked, a.recAfter.started))) =
+example : ((attempts (timerRun ⟨.temporary, 60⟩ ⟨none, some 1, none, none⟩ 1 false 0 (fromScratch 0)
+    (constIdle 2 [(.ok, 0), (.ok, 0), (.ok, 0)]))).map (fun a => (a.time, a.out.invoked, a.recAfter.started))) =
     [(2, true, 2), (3, true, 3), (4, true, 4)] := by decide
 -- a timer (interval 10) whose function raises PermanentError is executed once; the following
 -- iterations find nothing awakened (the record is kept, the loop sleeps its interval)
-example : timerRun ⟨.temporary, 60⟩ ⟨none, none, none, none⟩ 10 false 0 0 (fromScratch 0)
-    [(.permanent, 0), (.permanent, 0), (.ok, 0)] =
+example : timerRun ⟨.temporary, 60⟩ ⟨none, none, none, none⟩ 10 false 0 (fromScratch 0)
+    (constIdle 0 [(.permanent, 0), (.permanent, 0), (.ok, 0)]) =
     [.att (attemptAt ⟨.temporary, 60⟩ ⟨none, none, none, none⟩ 0 (fromScratch 0) .permanent 0 0),
      .idle 10 true, .idle 20 true] := by decide
 -- with retries = 1 a failing timer is invoked once in its life; after successes it starts new series
-example : (invokedOf (attempts (timerRun ⟨.temporary, 60⟩ ⟨none, none, some 1, none⟩ 10 false 0 0 (fromScratch 0)
-    [(.arbitrary, 0), (.arbitrary, 0), (.arbitrary, 0)]))).length = 1 := by decide
-example : ((attempts (timerRun ⟨.temporary, 60⟩ ⟨none, none, some 2, some 3⟩ 10 false 0 0 (fromScratch 0)
-    [(.ok, 0), (.arbitrary, 0), (.ok, 0), (.arbitrary, 0), (.arbitrary, 0), (.ok, 0)])).map
+example : (invokedOf (attempts (timerRun ⟨.temporary, 60⟩ ⟨none, none, some 1, none⟩ 10 false 0 (fromScratch 0)
+    (constIdle 0 [(.arbitrary, 0), (.arbitrary, 0), (.arbitrary, 0)])))).length = 1 := by decide
+example : ((attempts (timerRun ⟨.temporary, 60⟩ ⟨none, none, some 2, some 3⟩ 10 false 0 (fromScratch 0)
+    (constIdle 0 [(.ok, 0), (.arbitrary, 0), (.ok, 0), (.arbitrary, 0), (.arbitrary, 0), (.ok, 0)]))).map
     (fun a => (a.time, a.retry, a.recAfter.success, a.recAfter.failure))) =
     [(0, 0, true, false), (10, 0, false, false), (13, 1, true, false), (23, 0, false, false), (26, 1, false, true)] := by
   decide
 -- one series of a sharp timer with a timeout: invoked inside T, refused at T, spacing by backoff
-example : ((attempts (timerRun ⟨.temporary, 60⟩ ⟨none, some 25, none, some 10⟩ 7 true 0 0 (fromScratch 0)
-    [(.arbitrary, 1), (.arbitrary, 1), (.arbitrary, 1), (.ok, 0)])).map (fun a => (a.time, a.out.invoked, a.out.exc))) =
+example : ((attempts (timerRun ⟨.temporary, 60⟩ ⟨none, some 25, none, some 10⟩ 7 true 0 (fromScratch 0)
+    (constIdle 0 [(.arbitrary, 1), (.arbitrary, 1), (.arbitrary, 1), (.ok, 0)]))).map (fun a => (a.time, a.out.invoked, a.out.exc))) =
     [(0, true, .raised), (11, true, .raised), (22, true, .timeout)] := by decide
 
 /-! ## A timer across re-spawns (finding C11-F4, repaired by a6c10de)
@@ -1015,7 +1165,7 @@ example : ((attempts (timerRun ⟨.temporary, 60⟩ ⟨none, some 25, none, some
 /-- Over the timer's whole existence for the object — every task, every re-spawn — an attempt that
     is followed by another one did not fail: after a final failure the function is never invoked again. -/
 theorem timer_respawn_failure_is_last (env : Env) (l : Limits) (iv : Nat) (sh : Bool)
-    (tasks : List (Int × List (Raised × Nat))) :
+    (tasks : List (Int × List (Raised × Nat × Int))) :
     (attempts (respawnRun env l iv sh tasks)).Pairwise (fun a _ => a.recAfter.failure = false) := by
   induction tasks with
   | nil => exact List.Pairwise.nil
@@ -1023,8 +1173,8 @@ theorem timer_respawn_failure_is_last (env : Env) (l : Limits) (iv : Nat) (sh : 
     obtain ⟨t0, script⟩ := tk
     simp only [respawnRun]
     rw [attempts_append]
-    have h1 := timer_failure_is_last env l iv sh t0 script t0 (fromScratch t0) (fromScratch_sane t0)
-    cases hany : (attempts (timerRun env l iv sh t0 t0 (fromScratch t0) script)).any (fun a => a.recAfter.failure) with
+    have h1 := timer_failure_is_last env l iv sh script t0 (fromScratch t0) (fromScratch_sane t0)
+    cases hany : (attempts (timerRun env l iv sh t0 (fromScratch t0) script)).any (fun a => a.recAfter.failure) with
     | true => simpa [attempts] using h1
     | false =>
       simp only [Bool.false_eq_true, if_false]
@@ -1036,11 +1186,11 @@ theorem timer_respawn_failure_is_last (env : Env) (l : Limits) (iv : Nat) (sh : 
 -- regression of C11-F4 (was `timer_respawn_runs_again_witness`): the function raises PermanentError at 0;
 -- the task is stopped (filters mismatch) and the object matches again at 6: nothing is spawned
 example : ((attempts (respawnRun ⟨.temporary, 60⟩ ⟨none, none, none, none⟩ 1 false
-    [(0, [(.permanent, 0), (.ok, 0)]), (6, [(.permanent, 0)])])).map
+    [(0, constIdle 0 [(.permanent, 0), (.ok, 0)]), (6, constIdle 6 [(.permanent, 0)])])).map
     (fun a => (a.time, a.retry, a.out.invoked, a.recAfter.failure))) = [(0, 0, true, true)] := by decide
 -- … while a timer stopped in the middle of a retry series IS re-spawned, from scratch
 example : ((attempts (respawnRun ⟨.temporary, 60⟩ ⟨none, none, none, some 5⟩ 1 false
-    [(0, [(.arbitrary, 0)]), (6, [(.ok, 0)])])).map (fun a => (a.time, a.retry, a.recAfter.success))) =
+    [(0, constIdle 0 [(.arbitrary, 0)]), (6, constIdle 6 [(.ok, 0)])])).map (fun a => (a.time, a.retry, a.recAfter.success))) =
     [(0, 0, false), (6, 0, true)] := by decide
 
 /-! ## "T after the FIRST attempt": the code measures from the record's creation (finding C11-F3)
